@@ -21,6 +21,7 @@ import featlib
 from featlib import Check, walk, render, is_call, rel
 from lafem_roles import (Unknown, strip_targs, defile, strip, Locals, perspective, objkey, accessor, const_value,
                          assertions, counting_loop, is_zero, flatten_if_chain, stmts, live_must_pass)
+from norm_c04 import fuse_while, fold_continue, loop_form, decision_leaves, partitions, pattern_label, alias_value, EMPTY, NONEMPTY
 
 LAFEM = featlib.repo_path("kernel/lafem/")
 
@@ -103,10 +104,19 @@ class KCtx:
         self.j = None          # decl id of the block-loop variable
         self.acc = set()       # decl ids of accumulator / incumbent locals
         self.tags = {}         # decl id of an index local -> tag (index kernels: incumbent index)
+        self.ptrs = {}         # decl id of a pointer cursor advanced in lock step with the size loop -> decl id of its array parameter
+        self.down = set()      # decl ids of loop variables of reversed inductions (the body addresses element v - 1)
 
     def idx_tag(self, n):
         n = strip(n)
-        if n.get("k") == "Ref" and n.get("d") == self.i and self.i is not None:
+        if self.i is not None and self.i in self.down:
+            # reversed induction: v runs size..1, the element visited is v - 1
+            if n.get("k") == "Bin" and n.get("op") == "-" and strip(n["lhs"]).get("k") == "Ref" and strip(n["lhs"]).get("d") == self.i \
+                    and strip(n["rhs"]).get("k") == "Int" and int(strip(n["rhs"])["v"]) == 1:
+                return "i"
+            if n.get("k") == "Ref" and n.get("d") == self.i:
+                raise Wrong("subscript `%s` (line %s) in a loop that counts down from the extent: the first iteration addresses the element one past the end and element 0 is never visited" % (render(n), n.get("l")))
+        if n.get("k") == "Ref" and n.get("d") == self.i and self.i is not None and self.i not in self.ptrs:
             return "i"
         if n.get("k") == "Int" and int(n["v"]) == 0:
             return "0"
@@ -130,6 +140,25 @@ class KCtx:
     def cell(self, name, tag):
         return sympy.Symbol(name if tag == "i" else "%s@%s" % (name, tag))
 
+    def cursor_cell(self, n):
+        """`*p` / `p[0]` for a pointer cursor p that walks array A in lock step with the size loop -> the cell A[i]"""
+        n = strip(n)
+        e = None
+        if n.get("k") == "Un" and n.get("op") == "*":
+            e = strip(n["e"])
+        elif n.get("k") == "Index":
+            e = strip(n["b"])
+            if not (e.get("k") == "Ref" and e.get("d") in self.ptrs):
+                return None
+            ix = strip(n["idx"])
+            if not (ix.get("k") == "Int" and int(ix["v"]) == 0):
+                raise Wrong("`%s` (line %s) addresses another element than the one the cursor points to" % (render(n), n.get("l")))
+        if e is None or e.get("k") != "Ref" or e.get("d") not in self.ptrs:
+            return None
+        if self.i is None or self.i not in self.ptrs:
+            raise Unknown("pointer cursor `%s` used outside its loop (line %s)" % (render(e), n.get("l")))
+        return self.cell(self.params[self.ptrs[e["d"]]], "i")
+
     def sym(self, n):
         n = strip(n)
         k = n.get("k")
@@ -149,7 +178,19 @@ class KCtx:
             if r is not n and not (r.get("k") == "Ref" and r.get("d") == d):
                 return self.sym(r)      # `const DT_ t = x[i] * y[i];`
             raise Unknown("value `%s` is not a scalar parameter, accumulator or constant (line %s)" % (render(n), n.get("l")))
+        if k == "Un" and n.get("op") == "*":
+            c = self.cursor_cell(n)
+            if c is not None:
+                if self.j is not None and "Tiny::Vector" in self.fn.ntype(n):
+                    raise Unknown("block `%s` used without component subscript (line %s)" % (render(n), n.get("l")))
+                return c
+            e = self.loc.resolve(n["e"])
+            if e.get("k") == "Ref" and e.get("d") in self.ptr and self.j is None:
+                return self.cell(self.params[e["d"]], "0")      # `*x` is x[0]
         if k == "Index":
+            c = self.cursor_cell(n)
+            if c is not None:
+                return c
             b = self.loc.resolve(n["b"])
             if b.get("k") == "Ref" and b.get("d") in self.ptr:
                 if self.j is not None and "Tiny::Vector" in self.fn.ntype(n):
@@ -158,8 +199,16 @@ class KCtx:
             raise Unknown("subscripted object `%s` is not an array parameter (line %s)" % (render(b), n.get("l")))
         if k == "OpCall" and n.get("op") == "[]" and len(n.get("a", [])) == 2:
             base, sub = strip(n["a"][0]), strip(n["a"][1])
+            if self.j is not None and self.j in self.down and sub.get("k") == "Bin" and sub.get("op") == "-" and strip(sub["lhs"]).get("d") == self.j \
+                    and strip(sub["rhs"]).get("k") == "Int" and int(strip(sub["rhs"])["v"]) == 1:
+                sub = strip(sub["lhs"])
+            elif self.j is not None and self.j in self.down:
+                raise Unknown("component subscript `%s` in a reversed component loop (line %s)" % (render(sub), n.get("l")))
             if not (sub.get("k") == "Ref" and sub.get("d") == self.j and self.j is not None):
                 raise Unknown("component subscript `%s` is not the block-loop variable (line %s)" % (render(sub), n.get("l")))
+            c = self.cursor_cell(base)
+            if c is not None:
+                return c
             if base.get("k") == "Index":
                 b = self.loc.resolve(base["b"])
                 if b.get("k") == "Ref" and b.get("d") in self.ptr:
@@ -208,53 +257,114 @@ def is_nonzero(e):
 
 
 def classify_loop(ctx, node):
-    """-> ('size'|'block', decl id) for a canonical loop from 0, else raises Unknown"""
-    cl = counting_loop(node)
-    if cl is None:
-        raise Unknown("loop at line %s is not of the form for(v=0; v<bound; ++v)" % node.get("l"))
-    d, lo, hi = cl
-    hi = ctx.loc.resolve(hi)
-    if not is_zero(lo):
-        if getattr(ctx, "allow_from_one", False) and lo.get("k") == "Int" and int(lo["v"]) == 1 and hi.get("k") == "Ref" and hi.get("n") == "size":
+    """-> ('size'|'block', decl id) for an induction over [0,size) resp. [0,n) in any spelling lib/norm_c04.loop_form
+    understands (index loop, reversed index loop, pointer cursors in lock step); a range that is understood but is not
+    [0,size) is a definite violation (Wrong); anything else raises Unknown"""
+    lf = loop_form(node)
+    if lf is None:
+        raise Unknown("loop at line %s is not an induction by steps of one over a fixed range (for(v=lo; v<hi; ++v) and its equivalents)" % node.get("l"))
+    d = lf["var"]
+    SIZE, BN = sympy.Symbol("size"), sympy.Symbol("BN")
+
+    def aff(n):
+        """affine value over size, the block size and the array base pointers"""
+        n = ctx.loc.resolve(n)
+        k = n.get("k")
+        if k == "Int":
+            return sympy.Integer(int(n["v"]))
+        if k == "Ref":
+            if n.get("d") in ctx.ptr:
+                return sympy.Symbol("P%s" % n["d"])
+            if n.get("dk") == "param" and n.get("n") == "size":
+                return SIZE
+            if n.get("n") == "n" and "v" in n and "Tiny::Vector" in (n.get("qn") or ""):
+                return BN
+            if "v" in n:
+                return sympy.Integer(int(n["v"]))
+        if k == "Bin" and n.get("op") in ("+", "-"):
+            a, b = aff(n["lhs"]), aff(n["rhs"])
+            return a + b if n["op"] == "+" else a - b
+        if k == "Un" and n.get("op") == "&":
+            e = strip(n["e"])
+            if e.get("k") == "Index":
+                return aff(e["b"]) + aff(e["idx"])
+        raise Unknown("loop range term `%s` at line %s" % (render(n)[:50], node.get("l")))
+    lo, hi = aff(lf["lo"]), aff(lf["hi"]) + lf["hi_off"]
+    bases = [x for x in lo.free_symbols if str(x).startswith("P")]
+    if bases:
+        # pointer cursor(s) walking arrays in lock step
+        if lf["down"]:
+            raise Unknown("reversed pointer loop at line %s" % node.get("l"))
+        pb = int(str(bases[0])[1:])
+        if len(bases) != 1 or sympy.expand(lo - bases[0]) != 0:
+            raise Unknown("pointer loop at line %s starts at `%s`" % (node.get("l"), render(lf["lo"])))
+        ext = sympy.expand(hi - lo)
+        if ext != SIZE:
+            if sympy.expand(ext - SIZE).is_Integer:
+                raise Wrong("the pointer loop at line %s covers [0, %s) of `%s`, not [0, size)" % (node.get("l"), ext, ctx.params[pb]))
+            raise Unknown("pointer loop at line %s: end `%s` is not `%s + size`" % (node.get("l"), render(lf["hi"]), ctx.params[pb]))
+        cursors = {d: pb}
+        for d2, lo2 in lf["others"].items():
+            e2 = aff(lo2)
+            b2 = [x for x in e2.free_symbols if str(x).startswith("P")]
+            if len(b2) != 1 or sympy.expand(e2 - b2[0]) != 0:
+                raise Unknown("loop at line %s advances `%s`, which does not start at an array parameter" % (node.get("l"), lf["vars"][d2].get("n")))
+            cursors[d2] = int(str(b2[0])[1:])
+        ctx.ptrs.update(cursors)
+        return "size", d
+    if lf["others"]:
+        raise Unknown("loop at line %s advances several variables" % node.get("l"))
+    if lo != 0:
+        if not lf["down"] and getattr(ctx, "allow_from_one", False) and lo == 1 and hi == SIZE:
             ctx.from_one = True      # element 0 must then be covered by the seed (checked by the caller)
             return "size", d
+        if lo.is_Integer and (hi == SIZE or hi == BN):
+            raise Wrong("the loop at line %s starts at %s: elements [0, %s) are never visited" % (node.get("l"), lo, lo))
         raise Unknown("loop at line %s does not start at 0" % node.get("l"))
-    if hi.get("k") == "Ref" and hi.get("dk") == "param" and hi.get("n") == "size":
+    if lf["down"]:
+        ctx.down.add(d)
+    if hi == SIZE:
         return "size", d
-    if hi.get("k") == "Ref" and hi.get("n") == "n" and "v" in hi and "Tiny::Vector" in (hi.get("qn") or ""):
+    if hi == BN:
         return "block", d
-    raise Unknown("loop bound `%s` at line %s is neither the parameter `size` nor the block size ValueType::n" % (render(hi), node.get("l")))
+    for full, nm in ((SIZE, "size"), (BN, "ValueType::n")):
+        dlt = sympy.expand(hi - full)
+        if dlt.is_Integer:
+            raise Wrong("the loop at line %s covers [0, %s), not [0, %s): %s" % (node.get("l"), hi, nm, "the last elements are never visited" if dlt < 0 else "it runs past the end of the arrays"))
+    raise Unknown("loop bound `%s` at line %s is neither the parameter `size` nor the block size ValueType::n" % (render(lf["hi"]), node.get("l")))
 
 
 def collect_leaves(ctx, node, env, out):
     """walk a loop nest; out gets (statement, {'size': d?, 'block': d?})"""
-    for s in stmts(node):
+    for s in fuse_while(stmts(node)):
         if s.get("k") == "For":
             kind, d = classify_loop(ctx, s)
             if kind in env:
                 raise Unknown("nested %s loops (line %s)" % (kind, s.get("l")))
             e2 = dict(env)
             e2[kind] = d
-            collect_leaves(ctx, s["body"], e2, out)
+            collect_leaves(ctx, {"k": "Block", "s": fold_continue(stmts(s["body"]))}, e2, out)
         elif s.get("k") in ("While", "Do", "ForRange"):
-            raise Unknown("%s loop at line %s" % (s["k"], s.get("l")))
+            raise Unknown("%s loop at line %s is not a counting loop the rule understands" % (s["k"], s.get("l")))
         else:
             out.append((s, dict(env)))
 
 
 # -------------------------------------------------------------------------------------------------
 def analyse_mapfold(ck, fn, struct, blocked):
-    """E2 + E5 for one instantiation of a map / fold kernel"""
+    """E2 + E5 for one instantiation of a map / fold kernel.
+
+    The body is read as a decision structure over the aliasing of its array parameters (lib/norm_c04.decision_leaves: if/else
+    chains, early returns, nested and negated tests are the same leaves).  For every aliasing pattern of the array parameters
+    the leaf that executes under it is determined and checked - so the obligations are per (kernel, pattern), not per branch
+    as written: removing an unreachable branch or reordering tests changes nothing."""
     kind, definition = KERNEL_DEF[struct]
     key0 = "%s::%s" % (struct, fn.name)
     inst = fn.full.split("::", 3)[-1]
     file = defile(fn)
-    body = stmts(fn.body)
     ctx = KCtx(fn)
-    # accumulator declarations (fold kernels)
-    accs = {}
-    rest = []
-    late_init = {}
+    arrays = [p["n"] for p in fn.params if p["d"] in ctx.ptr]
+    ptr_params = {p["d"]: p["n"] for p in fn.params if p["d"] in ctx.ptr}
     written_locals = set(ctx.loc.written)
     for n_ in fn.nodes():
         if n_.get("k") == "Assign":
@@ -263,165 +373,253 @@ def analyse_mapfold(ck, fn, struct, blocked):
                 t_ = strip(t_["b"]) if t_.get("k") == "Index" else strip((t_.get("a") or [{}])[0])
             if t_.get("k") == "Ref" and t_.get("dk") == "local":
                 written_locals.add(t_["d"])
-    for s in body:
-        if s.get("k") == "Decl":
-            for v in s["vars"]:
-                if v["d"] in written_locals or v.get("init") is None:
-                    accs[v["d"]] = v        # locals that are never written again are temporaries / aliases
-        elif s.get("k") == "Assign" and s.get("op") == "=" and strip(s["lhs"]).get("k") == "Ref" and strip(s["lhs"]).get("d") in accs \
-                and accs[strip(s["lhs"])["d"]].get("init") is None:
-            late_init[strip(s["lhs"])["d"]] = s["rhs"]       # `DT_ r; r = DT_(0);`
-        else:
-            rest.append(s)
-    ctx.acc = set(accs)
-    ret = [s for s in rest if s.get("k") == "Return"]
-    rest = [s for s in rest if s.get("k") != "Return"]
-    branches = []
     try:
-        if len(rest) == 1 and rest[0].get("k") == "If":
-            branches = flatten_if_chain(rest[0])
-            c0 = strip(branches[0][0]) if branches and branches[0][0] is not None else None
-            if len(branches) == 2 and branches[1][0] is None and c0 is not None and c0.get("k") == "Bin" and c0.get("op") == "!=":
-                eqc = dict(c0)
-                eqc["op"] = "=="
-                branches = [(eqc, branches[1][1]), (None, branches[0][1])]       # if(r != x) general else special
-            if branches[-1][0] is not None:
-                raise Unknown("alias chain at line %s has no general (else) branch" % rest[0].get("l"))
-        elif len(rest) == 1 and rest[0].get("k") == "For":
-            branches = [(None, rest[0])]
-        else:
-            raise Unknown("kernel body is not `[accumulator] (if-chain | loop) [return]` (%d statements)" % len(rest))
+        leaves = decision_leaves(stmts(fn.body))
     except Unknown as e:
         ck.incomplete("E2.kernel-loop", "%s [%s]: %s" % (key0, inst, e))
         return
-    results = []   # (cond node or None, label, target, new, line)
-    for cond, blk in branches:
-        label = "general" if cond is None else render(cond).replace("(", "").replace(")", "").replace(" ", "")
-        key = "%s/%s" % (key0, label)
+    cache = {}
+
+    def leaf_info(k):
+        """analyse leaf k once -> dict, or the exception it raised"""
+        if k in cache:
+            return cache[k]
         try:
-            leaves = []
-            collect_leaves(ctx, blk, {}, leaves)
-            leaves = [(s, e) for s, e in leaves if s.get("k") != "Decl"]      # const temporaries are resolved through their initialiser
-            main = [(s, e) for s, e in leaves if "size" in e]
-            fin = [(s, e) for s, e in leaves if "size" not in e]
-            if len(main) != 1:
-                raise Unknown("%d statements inside the size loop, expected exactly one update" % len(main))
-            s, env = main[0]
+            cache[k] = analyse_leaf(leaves[k][1])
+        except (Unknown, Wrong) as e:
+            cache[k] = e
+        return cache[k]
+
+    def analyse_leaf(sts):
+        accs, late_init, rest, ret = {}, {}, [], []
+        for s_ in fuse_while(sts):
+            if s_.get("k") == "Decl":
+                for v in s_["vars"]:
+                    if v["d"] in written_locals or v.get("init") is None:
+                        accs[v["d"]] = v        # locals that are never written again are temporaries / aliases
+            elif s_.get("k") == "Assign" and s_.get("op") == "=" and strip(s_["lhs"]).get("k") == "Ref" and strip(s_["lhs"]).get("d") in accs \
+                    and accs[strip(s_["lhs"])["d"]].get("init") is None and not rest:
+                late_init[strip(s_["lhs"])["d"]] = s_["rhs"]       # `DT_ r; r = DT_(0);`
+            elif s_.get("k") == "Return":
+                ret.append(s_)
+            else:
+                rest.append(s_)
+        ctx.acc = set(accs)
+        ctx.ptrs, ctx.down = {}, set()
+        lv = []
+        try:
+            collect_leaves(ctx, {"k": "Block", "s": rest}, {}, lv)
+        except Wrong as e:
+            # a loop over a range other than [0,size) is definite only if no element is handled outside the loops (peeling)
+            if any(s_.get("k") not in ("For", "While", "Do") and any(y.get("k") == "Index" or (y.get("k") == "Un" and y.get("op") == "*") for y in walk(s_)) for s_ in rest):
+                raise Unknown("%s; elements are also addressed outside the loops (peeled iterations are not modelled)" % e)
+            raise
+        lv = [(s_, e_) for s_, e_ in lv if s_.get("k") != "Decl"]      # const temporaries are resolved through their initialiser
+        main = [(q, s_, e_) for q, (s_, e_) in enumerate(lv) if "size" in e_]
+        fin = [(q, s_, e_) for q, (s_, e_) in enumerate(lv) if "size" not in e_]
+        if not main:
+            raise Unknown("no statement inside a loop over [0,size)")
+        # several updates (one loop with several statements, or several loops in sequence) compose element by element: every
+        # update touches element i (and j) of its arrays only - that is what ctx.assign establishes
+        updates = []
+        for q, s_, env in main:
             if blocked and "block" not in env:
-                raise Unknown("blocked kernel updates outside the component loop (line %s)" % s.get("l"))
+                raise Unknown("blocked kernel updates outside the component loop (line %s)" % s_.get("l"))
             if not blocked and "block" in env:
                 raise Unknown("scalar kernel with a component loop")
             ctx.i, ctx.j = env["size"], env.get("block")
-            tgt, new = ctx.assign(s)
-            final = None
-            for fs, fe in fin:
-                ctx.i, ctx.j = None, fe.get("block")
-                ft, fnew = ctx.assign(fs)
-                if ft == _S["acc"] and sympy.simplify(fnew - f_sqrt(_S["acc"])) == 0:
-                    final = "sqrt"
-                else:
-                    raise Unknown("statement `%s` outside the size loop" % render(fs)[:80])
-            problems = []
-            if kind == "map":
-                if tgt != _S["r"]:
-                    problems.append("the loop writes %s, not the output array r" % tgt)
+            tgt, new = ctx.assign(s_)
+            updates.append((tgt, new, s_.get("l"), env["size"]))
+        if kind != "map" and len({u[3] for u in updates}) > 1:
+            # separate reduction loops add up only if each of them purely accumulates
+            for tgt, new, ln, _ in updates:
+                if tgt != _S["acc"] or sympy.expand(new - _S["acc"]).has(_S["acc"]):
+                    raise Unknown("several loops over [0,size) of which the one at line %s does not purely accumulate" % ln)
+        q0 = max(q for q, _, _ in main)
+        final = None
+        for q, fs, fe in fin:
+            ctx.i, ctx.j = None, fe.get("block")
+            ft, fnew = ctx.assign(fs)
+            if q > q0 and ft == _S["acc"] and sympy.simplify(fnew - f_sqrt(_S["acc"])) == 0 and final is None:
+                final = "sqrt"      # per-component finalisation after the sum is complete (inside or behind the component loop)
             else:
-                if tgt != _S["acc"]:
-                    problems.append("the loop writes %s, not the accumulator" % tgt)
+                raise Unknown("statement `%s` outside the size loop" % render(fs)[:80])
+        return {"updates": updates, "line": updates[0][2], "final": final, "accs": accs, "late": late_init, "ret": ret}
+
+    def compose(info, pat):
+        """net effect of the leaf on element i under an aliasing pattern -> (target, new value)"""
+        rep = {x: blk[0] for blk in pat for x in blk}
+        sub = {sympy.Symbol(n): sympy.Symbol(rep.get(n, n)) for n in arrays}
+        state = {}
+        for tgt, new, _, _ in info["updates"]:
+            t = tgt.subs(sub, simultaneous=True)
+            e = new.subs(sub, simultaneous=True)
+            if state:
+                e = e.subs(state, simultaneous=True)
+            state[t] = e
+        if len(state) != 1:
+            raise Wrong("the loop body writes %s (line %s); a %s kernel writes %s only" % (sorted(map(str, state)), info["line"], kind, "the output array r" if kind == "map" else "its accumulator"))
+        return list(state.items())[0]
+
+    def shortcut_ok(sts):
+        """leaf taken only for size == 0: it must do what zero iterations of the loop do"""
+        accs = {}
+        for s_ in sts:
+            if s_.get("k") == "Decl":
+                for v in s_["vars"]:
+                    accs[v["d"]] = v
+            elif s_.get("k") == "Return":
+                e = strip(s_.get("e")) if s_.get("e") is not None else None
+                if kind == "map":
+                    return e is None
+                if e is None:
+                    return False
+                r = ctx.loc.resolve(e)
+                while r.get("k") == "Call" and strip_targs(r.get("callee", "")) in ("FEAT::Math::sqrt", "std::sqrt") and len(r.get("a", [])) == 1:
+                    r = ctx.loc.resolve(r["a"][0])
+                if is_zero(r) or (r.get("k") in ("Construct", "TempObj") and len(r.get("a", [])) == 1 and is_zero(r["a"][0])) or (r.get("k") == "Float" and float(r["v"]) == 0):
+                    return True
+                if r.get("k") == "Ref" and r.get("d") in accs and accs[r["d"]].get("init") is not None:
+                    i0 = strip(accs[r["d"]]["init"])
+                    return is_zero(i0) or (i0.get("k") in ("Construct", "TempObj") and len(i0.get("a", [])) == 1 and is_zero(i0["a"][0]))
+                return False
+            else:
+                return False
+        return kind == "map"
+
+    selected = {}       # pattern label -> (leaf index, pattern)
+    used = set()
+    pats = partitions(arrays)
+    for pat in pats:
+        label = pattern_label(pat)
+        cands, trouble = [], None
+        for k, (lits, sts) in enumerate(leaves):
+            vals = []
+            for c, pol in lits:
+                v = alias_value(c, ctx.loc, ptr_params, pat)
+                if v is None:
+                    trouble = "branch condition `%s` (line %s) is not a test of the aliasing of the array parameters" % (render(c)[:60], c.get("l"))
+                    break
+                if v in (True, False):
+                    v = (v == pol)
                 else:
-                    d = sympy.expand(new - _S["acc"])
-                    if d.has(_S["acc"]):
-                        problems.append("accumulator is not only accumulated: new value %s" % new)
-            ck.ob("E2.kernel-loop", key, not problems,
-                  "; ".join(problems) if problems else "[%s] loop over [0,size)%s, every operand subscripted by the loop variable(s), target %s fully covered" % (inst, " x [0,n)" if blocked else "", tgt),
-                  file, s.get("l"), sample={"instantiation": inst, "update": "%s <- %s" % (tgt, new)})
-            results.append((cond, label, tgt, new, s.get("l"), final))
+                    v = (EMPTY if (v == EMPTY) == pol else NONEMPTY)
+                vals.append(v)
+            if trouble:
+                break
+            if any(v is False for v in vals):
+                continue
+            if EMPTY in vals:
+                if not shortcut_ok(sts):
+                    trouble = "the shortcut for size == 0 (line %s) does something else than zero iterations of the loop would (not modelled)" % (lits[0][0].get("l"))
+                    break
+                used.add(k)
+                continue
+            cands.append(k)
+        if trouble is None and len(cands) != 1:
+            trouble = "%d leaves of the body execute under the aliasing pattern %s" % (len(cands), label)
+        if trouble:
+            ck.incomplete("E2.kernel-loop", "%s/%s [%s]: %s" % (key0, label, inst, trouble))
+            continue
+        selected[label] = (cands[0], pat)
+        used.add(cands[0])
+    for k in range(len(leaves)):
+        if k not in used and len(selected) == len(pats):
+            ck.note("%s [%s]: the branch under `%s` is unreachable for every aliasing pattern (an earlier test covers it)" % (
+                key0, inst, " && ".join(("" if pol else "!") + render(c) for c, pol in leaves[k][0])[:100]))
+    reported = set()
+    results = {}
+    gen_leaf = selected.get("general", (None, None))[0]
+    for label, (k, pat) in selected.items():
+        key = "%s/%s" % (key0, label)
+        info = leaf_info(k)
+        if isinstance(info, Wrong):
+            ck.ob("E2.kernel-loop", key, False, "[%s] %s" % (inst, info), file, fn.line)
+            continue
+        if isinstance(info, Unknown):
+            if k not in reported:
+                ck.incomplete("E2.kernel-loop", "%s [%s]: %s" % (key, inst, info))
+                reported.add(k)
+            continue
+        problems = []
+        try:
+            tgt, new = compose(info, pats[0])
+            tgt_p, new_p = compose(info, pat)
         except Wrong as e:
-            ck.ob("E2.kernel-loop", key, False, "[%s] %s" % (inst, e), file, blk.get("l"))
-        except Unknown as e:
-            ck.incomplete("E2.kernel-loop", "%s [%s]: %s" % (key, inst, e))
-    # reductions: neutral start, result returned
+            ck.ob("E2.kernel-loop", key, False, "[%s] %s" % (inst, e), file, info["line"])
+            continue
+        if kind == "map":
+            if tgt != _S["r"]:
+                problems.append("the loop writes %s, not the output array r" % tgt)
+        else:
+            if tgt != _S["acc"]:
+                problems.append("the loop writes %s, not the accumulator" % tgt)
+            else:
+                d = sympy.expand(new - _S["acc"])
+                if d.has(_S["acc"]):
+                    problems.append("accumulator is not only accumulated: new value %s" % new)
+        ck.ob("E2.kernel-loop", key, not problems,
+              "; ".join(problems) if problems else "[%s] loop over [0,size)%s, every operand subscripted by the loop variable(s), target %s fully covered" % (inst, " x [0,n)" if blocked else "", tgt),
+              file, info["line"], sample={"instantiation": inst, "update": "%s <- %s" % (tgt, new)}, trivial=(label != "general" and k == gen_leaf))
+        results[label] = (k, pat, info, tgt_p, new_p)
+    # reductions: neutral start, result returned (all leaves that can execute must agree)
     if kind != "map":
         try:
-            if len(accs) != 1:
-                raise Unknown("%d local declarations, expected the accumulator only" % len(accs))
-            v = list(accs.values())[0]
-            init = strip(v.get("init")) if v.get("init") is not None else (strip(late_init[v["d"]]) if v["d"] in late_init else None)
-            if init is None or (init.get("k") in ("Construct", "TempObj") and not init.get("a")):
-                raise Unknown("accumulator `%s` has no initialiser the rule understands" % v["n"])
-            zero = init is not None and (is_zero(init) or (init.get("k") in ("Construct", "TempObj") and len(init.get("a", [])) == 1 and is_zero(init["a"][0])))
-            if len(ret) != 1:
-                raise Unknown("%d return statements" % len(ret))
-            ctx.i = ctx.j = None
-            rv = strip(ret[0].get("e"))
-            retsym = None
-            if rv.get("k") == "Ref" and rv.get("d") in ctx.acc:
-                retsym = _S["acc"]
-            else:
-                retsym = ctx.sym(rv)
-            finals = {r[5] for r in results}
-            if len(finals) > 1:
-                raise Unknown("branches finalise the accumulator differently")
-            final = finals.pop() if finals else None
-            if final == "sqrt":
-                retsym = retsym.subs(_S["acc"], f_sqrt(_S["acc"]))
+            infos = {k: info for (k, pat, info, _, _) in results.values()}
+            if not infos:
+                raise Unknown("no analysable branch")
+            verdicts = []
+            for k, info in sorted(infos.items()):
+                accs, ret = info["accs"], info["ret"]
+                if len(accs) != 1:
+                    raise Unknown("%d local declarations, expected the accumulator only" % len(accs))
+                v = list(accs.values())[0]
+                init = strip(v.get("init")) if v.get("init") is not None else (strip(info["late"][v["d"]]) if v["d"] in info["late"] else None)
+                if init is None or (init.get("k") in ("Construct", "TempObj") and not init.get("a")):
+                    raise Unknown("accumulator `%s` has no initialiser the rule understands" % v["n"])
+                zero = is_zero(init) or (init.get("k") in ("Construct", "TempObj") and len(init.get("a", [])) == 1 and is_zero(init["a"][0]))
+                if len(ret) != 1:
+                    raise Unknown("%d return statements" % len(ret))
+                ctx.acc = set(accs)
+                ctx.i = ctx.j = None
+                rv = strip(ret[0].get("e"))
+                if rv.get("k") == "Ref" and rv.get("d") in ctx.acc:
+                    retsym = _S["acc"]
+                else:
+                    retsym = ctx.sym(rv)
+                if info["final"] == "sqrt":
+                    retsym = retsym.subs(_S["acc"], f_sqrt(_S["acc"]))
+                verdicts.append((zero, retsym, render(init), v.get("l")))
             want = f_sqrt(_S["acc"]) if kind == "fold-sqrt" else _S["acc"]
-            okr = sympy.simplify(retsym - want) == 0
-            ck.ob("E2.reduction", "%s/start+result" % key0, zero and okr,
-                  "[%s] accumulator starts from %s, result is %s (expected start 0, result %s)" % (inst, render(init) if init is not None else "<uninitialised>", retsym, want),
-                  file, v.get("l"))
+            ok = all(z and sympy.simplify(r - want) == 0 for z, r, _, _ in verdicts)
+            bad = [x for x in verdicts if not (x[0] and sympy.simplify(x[1] - want) == 0)] or verdicts
+            ck.ob("E2.reduction", "%s/start+result" % key0, ok,
+                  "[%s] accumulator starts from %s, result is %s (expected start 0, result %s)" % (inst, bad[0][2], bad[0][1], want),
+                  file, bad[0][3])
         except Unknown as e:
             ck.incomplete("E2.reduction", "%s [%s]: %s" % (key0, inst, e))
-    # E5: general vs definition, specialised vs general
-    gen = [r for r in results if r[0] is None]
-    if not gen:
+    # E5: general vs definition, every aliasing pattern vs general
+    if "general" not in results:
         return
-    g = gen[0]
-    ck.ob("E5.definition", "%s/general" % key0, not is_nonzero(g[3] - definition),
-          "[%s] general branch computes %s <- %s; element-wise definition: %s" % (inst, g[2], g[3], definition), file, g[4],
-          sample={"instantiation": inst, "general": str(g[3]), "definition": str(definition)})
-    for cond, label, tgt, new, line, final in results:
-        if cond is None:
+    gk, gpat, g, g_tgt, g_new = results["general"]
+    ck.ob("E5.definition", "%s/general" % key0, not is_nonzero(g_new - definition),
+          "[%s] general branch computes %s <- %s; element-wise definition: %s" % (inst, g_tgt, g_new, definition), file, g["line"],
+          sample={"instantiation": inst, "general": str(g_new), "definition": str(definition)})
+    for label, (k, pat, info, tgt_p, new_p) in results.items():
+        if label == "general":
             continue
         key = "%s/%s" % (key0, label)
         try:
-            pairs = alias_pairs(ctx, cond)
-        except Unknown as e:
+            gt, gs = compose(g, pat)          # what the general branch would compute if it ran under this aliasing
+        except Wrong as e:
             ck.incomplete("E5.alias-branch", "%s [%s]: %s" % (key, inst, e))
             continue
-        rep = {}
-        def find(a):
-            while rep.get(a, a) != a:
-                a = rep[a]
-            return a
-        for a, b in pairs:
-            ra, rb = find(a), find(b)
-            if ra != rb:
-                rep[rb] = ra
-        names = {p["n"] for p in fn.params}
-        sub = {sympy.Symbol(n): sympy.Symbol(find(n)) for n in names}
-        gs, ss = g[3].subs(sub, simultaneous=True), new.subs(sub, simultaneous=True)
-        same_t = tgt.subs(sub, simultaneous=True) == g[2].subs(sub, simultaneous=True)
-        ok = same_t and not is_nonzero(gs - ss)
+        ok = (tgt_p == gt) and not is_nonzero(gs - new_p)
         ck.ob("E5.alias-branch", key, ok,
-              "[%s] under %s the general update %s <- %s becomes %s; the specialised branch computes %s <- %s%s" % (
-                  inst, label, g[2], g[3], sympy.expand(gs), tgt, sympy.expand(ss), "" if ok else "  -- NOT EQUAL"),
-              file, line, sample={"instantiation": inst, "condition": label, "general": str(sympy.expand(gs)), "specialised": str(sympy.expand(ss))})
-
-
-def alias_pairs(ctx, cond):
-    """`r == x && r == y` -> [(r,x),(r,y)] over pointer parameters"""
-    c = strip(cond)
-    if c.get("k") == "Un" and c.get("op") == "!" and strip(c["e"]).get("k") == "Bin" and strip(c["e"]).get("op") == "!=":
-        c = dict(strip(c["e"]))
-        c["op"] = "=="
-    if c.get("k") == "Bin" and c.get("op") == "&&":
-        return alias_pairs(ctx, c["lhs"]) + alias_pairs(ctx, c["rhs"])
-    if c.get("k") == "Bin" and c.get("op") == "==":
-        a, b = strip(c["lhs"]), strip(c["rhs"])
-        if a.get("k") == "Ref" and b.get("k") == "Ref" and a.get("d") in ctx.ptr and b.get("d") in ctx.ptr:
-            return [(a["n"], b["n"])]
-    raise Unknown("branch condition `%s` is not a conjunction of pointer equalities between array parameters" % render(cond))
+              "[%s] under %s the general update %s <- %s becomes %s; the branch executed there computes %s <- %s%s" % (
+                  inst, label, g_tgt, g_new, sympy.expand(gs), tgt_p, sympy.expand(new_p), "" if ok else "  -- NOT EQUAL"),
+              file, info["line"], sample={"instantiation": inst, "condition": label, "general": str(sympy.expand(gs)), "specialised": str(sympy.expand(new_p))},
+              trivial=(k == gk))
 
 
 # -------------------------------------------------------------------------------------------------
@@ -435,7 +633,10 @@ def analyse_index_kernel(ck, fn, struct, blocked):
     ctx.allow_from_one = True
     ctx.from_one = False
     try:
-        body = stmts(fn.body)
+        body = fuse_while(stmts(fn.body))
+        # `if(size == 0) return ...;` in front: the extremum of an empty vector is outside the property
+        body = [s for s in body if not (s.get("k") == "If" and s.get("else") is None and alias_value(s["c"], ctx.loc, {}, []) == EMPTY
+                                        and [x.get("k") for x in stmts(s["then"])] == ["Return"])]
         decls = {}
         for s in body:
             if s.get("k") == "Decl":
@@ -481,12 +682,23 @@ def analyse_index_kernel(ck, fn, struct, blocked):
         cand_want = f_abs(x) if use_abs else x
         problems = []
         # comparison
-        c = strip(ifn["c"])
-        if c.get("k") != "Bin" or c.get("op") not in ("<", ">"):
-            raise Unknown("comparison `%s`" % render(c))
-        lhs, rhs, op = ctx.sym(c["lhs"]), ctx.sym(c["rhs"]), c["op"]
+        c = ctx.loc.resolve(ifn["c"])
+        neg = False
+        while c.get("k") == "Un" and c.get("op") == "!":
+            neg = not neg
+            c = ctx.loc.resolve(c["e"])
+        cop = c.get("op") if c.get("k") == "Bin" else None
+        if neg and cop in ("<", ">", "<=", ">="):
+            cop = {"<": ">=", ">": "<=", "<=": ">", ">=": "<"}[cop]       # !(a <= b) is a > b
+        if cop not in ("<", ">", "<=", ">="):
+            raise Unknown("comparison `%s`" % render(ifn["c"]))
+        lhs, rhs, op = ctx.sym(c["lhs"]), ctx.sym(c["rhs"]), cop
         if not lhs.has(x) and rhs.has(x):
-            lhs, rhs, op = rhs, lhs, {"<": ">", ">": "<"}[op]
+            lhs, rhs, op = rhs, lhs, {"<": ">", ">": "<", "<=": ">=", ">=": "<="}[op]
+        if op in ("<=", ">="):
+            if op[0] == cmp_want:
+                raise Unknown("comparison `%s` is not strict (ties would move the extremum to the last of equal elements; tie-breaking is not decided)" % render(ifn["c"]))
+            op = op[0]          # wrong direction whatever happens on ties
         if op != cmp_want:
             problems.append("replaces the incumbent when candidate %s incumbent, expected %s" % (op, cmp_want))
         if lhs != cand_want:
@@ -567,29 +779,37 @@ def analyse_component_copy(ck, fn):
     inst = fn.full.split("::", 3)[-1]
     file = defile(fn)
     try:
-        body = stmts(fn.body)
+        loc = Locals(fn)
+        body = fuse_while(stmts(fn.body))
+        body = [s for s in body if not (s.get("k") == "If" and s.get("else") is None and alias_value(s["c"], loc, {}, []) == EMPTY
+                                        and [x.get("k") for x in stmts(s["then"])] == ["Return"] and stmts(s["then"])[0].get("e") is None)]
+        body = [s for s in body if not (s.get("k") == "Decl" and all(v["d"] not in loc.written for v in s["vars"]))]     # hoisted constants
         if len(body) != 1 or body[0].get("k") != "For":
             raise Unknown("body is not a single loop")
-        cl = counting_loop(body[0])
-        if cl is None or not is_zero(cl[1]) or not (cl[2].get("k") == "Ref" and cl[2].get("n") == "size" and cl[2].get("dk") == "param"):
+        lf = loop_form(body[0])
+        if lf is None or lf["others"] or lf["down"] or lf["hi_off"]:
+            raise Unknown("loop is not for(i=0;i<size;++i) or an equivalent spelling")
+        hi_ = loc.resolve(lf["hi"])
+        cl = (lf["var"], loc.resolve(lf["lo"]), hi_)
+        if not is_zero(cl[1]) or not (cl[2].get("k") == "Ref" and cl[2].get("n") == "size" and cl[2].get("dk") == "param"):
             raise Unknown("loop is not for(i=0;i<size;++i)")
-        inner = stmts(body[0]["body"])
+        inner = [x for x in stmts(body[0]["body"]) if not (x.get("k") == "Decl" and all(v["d"] not in loc.written for v in x["vars"]))]
         if len(inner) != 1 or inner[0].get("k") != "Assign" or inner[0].get("op") != "=":
             raise Unknown("loop body is not a single assignment")
         a = inner[0]
         pn = {p["d"]: p["n"] for p in fn.params}
 
         def side(n):
-            n = strip(n)
+            n = loc.resolve(n)
             if n.get("k") != "Index":
                 raise Unknown("operand `%s`" % render(n))
-            b = strip(n["b"])
+            b = loc.resolve(n["b"])
             if b.get("k") != "Ref" or b.get("d") not in pn:
                 raise Unknown("operand `%s`" % render(n))
             return pn[b["d"]], idx(n["idx"])
 
         def idx(n):
-            n = strip(n)
+            n = loc.resolve(n)
             if n.get("k") == "Ref":
                 if n.get("d") == cl[0]:
                     return sympy.Symbol("i")
@@ -1234,11 +1454,11 @@ def check_meta_method(ck, fn, recursive):
 def run(tier):
     ck = Check("C04", tier)
     ck.rule("E0.instantiable", "every operation of the property (axpy, scale, component_product/invert, dot, triple_dot, norm2(sqr), min/max(_abs)_element, copy, format and the *_blocked forms) type-checks for every vector kind of the driver. Broken for: any call of that member.", 14)
-    ck.rule("E2.kernel-loop", "each branch of each generic vector kernel is one loop for(i=0;i<size;++i) (blocked: times for(j=0;j<n;++j)) whose single update subscripts every array by i (and j) and writes the output array r resp. the accumulator. Broken for: any size>1 (stale/partial output), sizes that are not a multiple of a stride.", 58)
+    ck.rule("E2.kernel-loop", "for every aliasing pattern of its array parameters, the code a generic vector kernel executes under that pattern (whatever the spelling of its alias tests: if/else chain, early return, negated test) is one induction over [0,size) (blocked: times [0,n); index loop, reversed index loop or pointer cursors in lock step) whose single update addresses every array at the current element and writes the output array r resp. the accumulator. Broken for: any size>1 (stale/partial output), sizes that are not a multiple of a stride.", 66)
     ck.rule("E2.reduction", "dot/triple_dot/norm kernels start the accumulator from 0 and return it (Norm2: its square root). Broken for: every non-empty input (uninitialised or wrong start), empty vectors (must give 0).", 14)
     ck.rule("E2.index-kernel", "min/max(_abs) index kernels: the loop covers [0,size), the candidate compared is the one stored, the direction matches the name, the incumbent is seeded from element 0 (0 only for max-abs), blocked kernels reset the incumbent index per component. Broken for: all-negative vectors (seed 0), negative first element (min_abs seeded without abs), block vectors whose extreme components sit at different positions.", 14)
     ck.rule("E5.definition", "the general branch of every kernel equals the documented element-wise definition (polynomial/rational normal form). Broken for: all non-aliased calls.", 26)
-    ck.rule("E5.alias-branch", "each alias-specialised branch (r==x, x==y, x==z, y==z, ...) equals the general branch after substituting the aliasing condition. Broken for: calls that pass the same vector for two operands (never done by the tests).", 30)
+    ck.rule("E5.alias-branch", "for every aliasing pattern of the array parameters (r==x, x==y, x==z, y==z, r==x==y, ...) the code executed under that pattern equals the general branch after substituting the aliasing. Broken for: calls that pass the same vector for two operands (never done by the tests).", 38)
     ck.rule("E1.operands", "Arch call sites of DenseVector/DenseVectorBlocked/SparseVector(Blocked): the array slots carry the receiver and every vector parameter exactly once (receiver in the output slot r), the scalar slot carries the scalar parameter. Broken for: any x != y, alpha != 1.", 65)
     ck.rule("E1.extent", "the extent slot carries the number of entries of the arrays passed: size<P>() for dense, used_elements<P>() for sparse vectors, P = perspective of the arrays (pod arrays with pod extent), of the receiver or an operand asserted equal; set_vec/set_vec_inv copy counts likewise. Broken for: block size > 1 (only 1/BlockSize of the data processed or overrun), sparse vectors with fewer entries than their dimension.", 71)
     ck.rule("E1.size-bookkeeping", "every extent a DenseVectorBlocked / SparseVectorBlocked constructor, convert, read_from or insertion records in _elements_size for its pod array is a pod count (size<Perspective::pod>(), blocks x BlockSize, or the very count the array was allocated with) - what Container::format/_copy_content iterate over; all sites of a class agree. Broken for: format()/copy() on range views or freshly built blocked vectors with BlockSize > 1 (only 1/BlockSize of the scalars touched).", 17)
